@@ -23,7 +23,9 @@ CONSTANTS MaxGen, NDig,   \* revision universe
           Depths,         \* prune depths explored at tree level
           Configs,        \* set of [lvl, ac, lim, gv] records
           Feed,           \* TRUE: only mutually consistent, accepted-or-not chain feeding (order-independence runs)
-          Lean            \* TRUE: drop environment choices that can only be rejected for a missing parent
+          Lean,           \* TRUE: drop environment choices that can only be rejected for a missing parent
+          GoodChains,     \* histories the environment may send (MC: all generation-decreasing sequences; trace: unused)
+          BadChains       \* malformed histories (child not above its parent)
 
 Rev  == [g : 1..MaxGen, d : 1..NDig]
 Nil  == [g |-> 0, d |-> 0]
@@ -131,8 +133,8 @@ Tag(r) == r                                  \* body token written with a revisi
 IsChain(ch) == \A k \in 1..(Len(ch) - 1) : ch[k].g > ch[k + 1].g
 RECURSIVE ChainsFrom(_)                      \* strictly generation-decreasing sequences starting below generation g
 ChainsFrom(g) == {<<>>} \cup UNION { {<<r>> \o c : c \in ChainsFrom(r.g)} : r \in {x \in Rev : x.g < g} }
-GoodChains == ChainsFrom(MaxGen + 1) \ {<<>>}
-BadChains  == {<<q[1], q[2]>> : q \in {z \in Rev \X Rev : z[1] # z[2] /\ z[2].g >= z[1].g}}   \* child not above its parent
+AllGoodChains == ChainsFrom(MaxGen + 1) \ {<<>>}
+AllBadChains(S) == {<<q[1], q[2]>> : q \in {z \in S \X S : z[1] # z[2] /\ z[2].g >= z[1].g}}
 
 -----------------------------------------------------------------------------
 Init ==
@@ -301,8 +303,9 @@ PruneSafe == pre.on =>
   /\ pre.k = "prune" => (cur[pre.i] = pre.c /\ cur[pre.i] \in DOMAIN tree[pre.i])
   /\ ForestT(tree[pre.i])
 ReloadPreserves == \A i \in Reps : mem[i] = tree[i]
-(* the body served for the document is the body written with the winning revision *)
-WinningBody == \A i \in Reps : cur[i] # Nil => wb[i] = btok[cur[i]]
+(* the body served for the document is the body written with the winning revision (a tombstone is served
+   without the properties it was written with - not demanded) *)
+WinningBody == \A i \in Reps : (cur[i] \in DOMAIN tree[i] /\ ~tree[i][cur[i]].del) => wb[i] = btok[cur[i]]
 (* two replicas that accepted the same set of revisions (with their ancestries), in any orders *)
 OrderIndependent == \A i, j \in Reps :
   (cons /\ ~pruned /\ acc[i] = acc[j]) =>
